@@ -8,6 +8,7 @@ import (
 	"sync"
 
 	secp256k1 "github.com/bytemare/secp256k1"
+	"github.com/bytemare/secp256k1/internal/field"
 	"github.com/bytemare/secp256k1/internal/verif/alpha"
 	"github.com/bytemare/secp256k1/internal/verif/ev"
 	"github.com/bytemare/secp256k1/internal/verif/ref"
@@ -509,15 +510,21 @@ var (
 //
 // The small curve has its own group order N_q, while scalars stay the real 256-bit scalars modulo n. The oracle
 // [k mod N_q]g is therefore right exactly for implementations that treat k as a plain integer (ladders, windows,
-// signed digits of k itself). An implementation may legitimately exploit the order of the REAL group instead -
-// pad k to k+n or k+2n for a fixed length, blind it with a multiple of n, recode k > n/2 as -(n-k), split it with
-// the curve's endomorphism - and is then right on secp256k1 and meaningless on the small curve, where [n]P is not
-// the identity (n mod N_q != 0 for every instance used). That is a fact about the tree, not a violation: the
+// signed digits of k itself). An implementation may legitimately exploit the structure of the REAL group instead -
+// pad k to k+n or k+2n for a fixed length, recode k > n/2 as -(n-k), split it with the curve's endomorphism - and
+// is then right on secp256k1 and meaningless on the small curve, where [n]P is not the identity (n mod N_q != 0 for
+// every instance used) and beta is not a cube root of unity. That is a fact about the tree, not a violation: the
 // instance does not model it. It is recognised on a calibration set - canonical representation of every point,
-// k in {0, 1, 2, 3, n-1, n-2, 2^255} - which every such implementation gets "wrong" on the small curve. When the
-// calibration fails, the small-field parts make no statement about Multiply (exhaustive:false with this reason)
-// and the real-curve parts decide alone; a tree whose ladder is plainly wrong on these scalars is reported there,
-// since all of them are members of the real-curve scalar alphabet.
+// k in {0, 1, 2, 3, n-1, n-2, 2^255} - by its SIGNATURE, so that a Multiply that is simply wrong keeps being
+// reported by the small-field parts:
+//
+//   - every calibration result that differs from [k]P is a valid point and equals [k + c*n]P for some 0 < |c| <= 3
+//     (the implementation works with another representative of k modulo the real order), or
+//   - Multiply decodes field literals that are not the stand-in's (constants of the real curve such as beta: the
+//     stand-in counts them).
+//
+// In these two cases the small-field parts make no statement about Multiply (exhaustive:false with the reason) and
+// the real-curve parts decide alone. Not recognised (stated limit): blinding with large random multiples of n.
 func (m *Model) MulGeneric() (ok bool, why string) {
 	mulGenericMu.Lock()
 	defer mulGenericMu.Unlock()
@@ -530,20 +537,58 @@ func (m *Model) MulGeneric() (ok bool, why string) {
 	ks := []*big.Int{big.NewInt(0), one, big.NewInt(2), big.NewInt(3), new(big.Int).Sub(ref.N, one),
 		new(big.Int).Sub(ref.N, big.NewInt(2)), new(big.Int).Lsh(one, 255)}
 
-	for i := 0; i < m.N && why == ""; i++ {
+	mismatches, explained := 0, 0
+	first := ""
+	foreign := uint64(0)
+
+	for i := 0; i < m.N; i++ {
 		for _, k := range ks {
 			e := m.NewElem(Rep{I: i, L: 1})
-			if p := catchStr(func() { e.Multiply(newScalar(k)) }); p != "" {
-				why = fmt.Sprintf("q=%d P=[%d]g k=%x panics", m.Q, i, k)
-				break
+			f0 := field.VerifForeign.Load()
+			p := catchStr(func() { e.Multiply(newScalar(k)) })
+			foreign += field.VerifForeign.Load() - f0
+
+			if p != "" {
+				mismatches++
+				continue
 			}
 
 			got, valid := m.AbstractElem(e)
-			if want := m.MulBig(k, i); !valid || got.I != want {
-				why = fmt.Sprintf("q=%d P=[%d]g k=%x does not give [%d]g", m.Q, i, k, want)
-				break
+			want := m.MulBig(k, i)
+
+			if valid && got.I == want {
+				continue
+			}
+
+			mismatches++
+
+			if first == "" {
+				first = fmt.Sprintf("q=%d P=[%d]g k=%x does not give [%d]g", m.Q, i, k, want)
+			}
+
+			if !valid {
+				continue
+			}
+
+			for c := int64(-3); c <= 3; c++ {
+				if c == 0 {
+					continue
+				}
+
+				kk := new(big.Int).Add(k, new(big.Int).Mul(big.NewInt(c), ref.N))
+				if got.I == m.MulBig(kk, i) {
+					explained++
+					break
+				}
 			}
 		}
+	}
+
+	switch {
+	case foreign != 0:
+		why = fmt.Sprintf("q=%d: Multiply decodes field literals that are constants of the real curve", m.Q)
+	case mismatches > 0 && explained == mismatches:
+		why = first + " but [k + c*n]g for a small c: Multiply works with another representative of k modulo the real group order"
 	}
 
 	mulGenericCache[m.Q] = why
@@ -555,7 +600,7 @@ func (m *Model) MulGeneric() (ok bool, why string) {
 func (m *Model) mulApplicable(r *ev.Report) bool {
 	ok, why := m.MulGeneric()
 	if !ok {
-		r.Incomplete("Multiply of this tree is not modelled by the scaled-down instance (calibration: " + why + "): it exploits the order of the real group or real-curve constants - or is wrong already on the calibration scalars, which the real-curve parts report; the small-field parts make no statement about Multiply")
+		r.Incomplete("Multiply of this tree is not modelled by the scaled-down instance (calibration: " + why + "); the small-field parts make no statement about Multiply, the real-curve parts decide")
 	}
 
 	return ok
